@@ -231,6 +231,13 @@ def loop_requests(ctx, quick, k):
         bs = b"".join(rng.choice(frag) for _ in range(rng.randrange(1, 14)))
         for fn in FN_LOOPS:
             req.append(f"{fn} {hexs(bs)}")
+    # FindDataSection: DATA / prefixes of it, strings and comments that hide a `DATA;`, NUL
+    dtoks = [b"D", b"A", b"T", b"DATA", b"DATA;", b";", b" ", b"'", b"'D;'", b"/*", b"*/", b"/", b"x", b"\x00", b"DA", b"\n"]
+    for n in range(0, (3 if quick else 4) + 1):
+        for t in itertools.product(dtoks, repeat=n):
+            req.append(f"finddata {hexs(b''.join(t))}")
+    for _ in range(200 if quick else 3000):
+        req.append(f"finddata {hexs(b''.join(rng.choice(dtoks + [b'HEADER;', b'ENDSEC;', b'/* DATA; */', b'DATA  ;', b'DATA/**/;']) for _ in range(rng.randrange(1, 16))))}")
     # CreateSubSuperInstance (part loop, SkipSimpleRecord, PushPastImbedAggr, PushPastString) on the bytes of an external mapping
     stoks = [b"(", b")", b"A1", b"BASE", b"x", b"(2.5)", b"'a)'", b"'", b",", b" ", b"1", b"((1),(2))", b"/*", b";", b"_", b"\x00"]
     for n in range(0, (3 if quick else 4) + 1):
